@@ -70,9 +70,11 @@ def boolOfLit : Term → Option Bool
 
 /-- sh:minLength / sh:maxLength parameter: a non-negative integer literal -/
 def natParam (t : Term) : Except Failure Int :=
-  match intOfLit t with
-  | some n => if n < 0 then .error .constraintLoad else .ok n
-  | none => .error .constraintLoad
+  match t with
+  | .lit l => (match l.val with
+    | .int n => if n < 0 ∨ l.ill then .error .constraintLoad else .ok n
+    | _ => .error .constraintLoad)     -- a boolean is no whole-integer datatype
+  | _ => .error .constraintLoad
 
 def shFlags := sh "flags"
 def shIgnoredProperties := sh "ignoredProperties"
@@ -196,7 +198,7 @@ def evalConstraint (c : Env) (rec : Rec) (s : Shape) (k : CKind) (fv : FV) (path
       if l.dt ≠ xsd "integer" then .error .constraintLoad else
       (match l.val with
         | .int n => if n < 0 then .error .constraintLoad else ofResults (evalMinCount s fv n)
-        | _ => .error (.raw "TypeError"))
+        | _ => .error .constraintLoad)
     | _ => .error .constraintLoad
   | .maxCount =>
     if !s.isProp then .error .constraintLoad else
@@ -205,23 +207,23 @@ def evalConstraint (c : Env) (rec : Rec) (s : Shape) (k : CKind) (fv : FV) (path
       if l.dt ≠ xsd "integer" then .error .constraintLoad else
       (match l.val with
         | .int n => if n < 0 then .error .constraintLoad else ofResults (evalMaxCount s fv n)
-        | _ => .error (.raw "TypeError"))
+        | _ => .error .constraintLoad)
     | _ => .error .constraintLoad
   | .minExclusive =>
     let bs := objs (sh "minExclusive")
-    if bs.any (fun b => !b.isLit) then .error (.raw "AssertionError") else
+    if bs.any (fun b => !b.isLit) then .error .constraintLoad else
     ofResults (evalRange s k fv bs (fun r => r > 0))
   | .minInclusive =>
     let bs := objs (sh "minInclusive")
-    if bs.any (fun b => !b.isLit) then .error (.raw "AssertionError") else
+    if bs.any (fun b => !b.isLit) then .error .constraintLoad else
     ofResults (evalRange s k fv bs (fun r => r ≥ 0))
   | .maxExclusive =>
     let bs := objs (sh "maxExclusive")
-    if bs.any (fun b => !b.isLit) then .error (.raw "AssertionError") else
+    if bs.any (fun b => !b.isLit) then .error .constraintLoad else
     ofResults (evalRange s k fv bs (fun r => r < 0))
   | .maxInclusive =>
     let bs := objs (sh "maxInclusive")
-    if bs.any (fun b => !b.isLit) then .error (.raw "AssertionError") else
+    if bs.any (fun b => !b.isLit) then .error .constraintLoad else
     ofResults (evalRange s k fv bs (fun r => r ≤ 0))
   | .minLength =>
     match objs (sh "minLength") with
@@ -237,10 +239,13 @@ def evalConstraint (c : Env) (rec : Rec) (s : Shape) (k : CKind) (fv : FV) (path
     | _ => .error .constraintLoad
   | .pattern =>
     let ps := objs (sh "pattern")
-    if ps.any (fun p => !p.isLit) then .error .constraintLoad else
+    if ps.any (fun p => match p with | .lit l => !isStrVal l | _ => true) then .error .constraintLoad else
+    if (match (dedup (objs shFlags)).head? with | some (.lit _) => false | some _ => true | none => false) then .error .constraintLoad else
     let flags := match (dedup (objs shFlags)).head? with
       | some (.lit l) => String.ofList (dedup ((lower l.lex).toList.filter (fun ch => ch = 'i' ∨ ch = 'm')))
       | _ => ""
+    -- `re.compile` fails: the harness marks such a pattern in the regex table
+    if ps.any (fun p => match p with | .lit l => c.rx l.lex flags regexInvalidMarker = some true | _ => false) then .error .constraintLoad else
     (match evalPattern s fv c.rx ps flags with
       | .error e => .error e
       | .ok rs => ofResults rs)
@@ -286,7 +291,7 @@ def evalConstraint (c : Env) (rec : Rec) (s : Shape) (k : CKind) (fv : FV) (path
         | .ok pss =>
           if litTruthy l ∧ pss.any (fun p => !p.isProp) then .error (.runtime "") else
           ofResults (evalClosed s dg fv (litTruthy l) ignored (pss.filterMap (·.path))))
-    | [_] => .error (.raw "AssertionError")
+    | [_] => .error .constraintLoad
     | _ => .error .constraintLoad
   -- ── shape-based and logical components ─────────────────────────────────────────────
   | .not =>
@@ -549,6 +554,7 @@ def runValidate (o : Opts) (sg dg : Graph) (rx : Regex) (focus useShapes : List 
       | _, .error e => .error e
       | .ok tts, .ok fns => .ok (fns, tts)
     else .ok ([], [])
+  if hasLoopingList sg then .error .shapeLoad else
   match useShapes with
   | [] =>
     match buildShapes sg with
